@@ -21,6 +21,19 @@ from pv import lib_coop
 from pv.core import InfraError, REPO, exc_site, hx
 
 RACE_SIG = "combine-switch-reorders-stderr"
+# exit statuses: the whole uint32 range with its boundaries (0xFF000000.. is where an "adaptive" integer encoding
+# switches format; 0xFFFFFFFF is what a Windows process exiting with -1 reports)
+STATUS_BOUNDS = [0, 1, 127, 128, 255, 256, 65535, 65536, 0x7FFFFFFF, 0x80000000, 0xFEFFFFFF, 0xFF000000, 0xFF000001,
+                 0xFFFFFFFE, 0xFFFFFFFF]
+
+
+def pick_status(rng):
+    r = rng.random()
+    if r < 0.5:
+        return rng.choice(STATUS_BOUNDS)
+    if r < 0.75:
+        return rng.randrange(1 << 32)
+    return rng.randrange(0xFF000000, 1 << 32) if r < 0.9 else rng.randrange(256)
 
 
 # ------------------------------------------------------------------ correspondence on a socket-less transport
@@ -168,7 +181,7 @@ def gen_history(rng, k, n):
         elif r < 0.90:
             acts.append(("combine", c, rng.choice([1, 1, 0])))
         elif r < 0.94:
-            acts.append(("exit", c, rng.randrange(256)))
+            acts.append(("exit", c, pick_status(rng)))
         elif r < 0.96:
             acts.append(("eof", c))
             eofs.add(c)
@@ -393,7 +406,8 @@ def e2e(ctx, nchan, nbytes, compress, rekey, label, id_offset=1, victim=False, s
                 writes.append(("err", bytes(0x80 | (b & 0x7F) for b in rng.randbytes(5))))
             if total and not any(st == "out" for st, _ in writes):
                 writes.append(("out", bytes(b & 0x7F for b in rng.randbytes(5))))
-            plans.append({"writes": writes, "combine": rng.random() < 0.4, "status": rng.randrange(256),
+            plans.append({"writes": writes, "combine": rng.random() < 0.4,
+                          "status": STATUS_BOUNDS[(i + len(label)) % len(STATUS_BOUNDS)] if i % 2 == 0 else pick_status(rng),
                           "sizes": [rng.choice([1, 10, 512, 4096, 65536]) for _ in range(2)]})
         cchans, schans = [], []
         for p in plans:
@@ -576,6 +590,157 @@ def e2e(ctx, nchan, nbytes, compress, rekey, label, id_offset=1, victim=False, s
         ts.close()
 
 
+def exit_status_wire(ctx):
+    """send_exit_status → bytes on the wire (against the model's encoding) → _handle_request on a receiving channel
+    (reported status == status sent), over the uint32 range"""
+    from paramiko.channel import Channel
+    from paramiko.common import MSG_CHANNEL_REQUEST
+    from paramiko.message import Message
+
+    rng = ctx.rng
+    vals = list(STATUS_BOUNDS) + [pick_status(rng) for _ in range(300 if ctx.thorough else 60)]
+    cases, reqs = [], []
+    for v in vals:
+        rid = rng.choice([0, 1, 7, 0xFFFFFF, 0xFFFFFFFF, rng.randrange(1 << 32)])
+        class T:
+            server_object = None
+            active = True
+
+            def __init__(self):
+                self.sent = []
+
+            def _send_user_message(self, m):
+                self.sent.append(m)
+
+        ch = Channel(3)
+        ch.transport = T()
+        ch.remote_chanid = rid
+        ch.active = 1
+        try:
+            ch.send_exit_status(v)
+        except Exception as e:
+            ctx.fail("send_exit_status-raises:" + exc_site(e), {"status": v}, repr(e))
+            continue
+        finally:
+            sent = list(ch.transport.sent)
+            ch.active = 0       # nothing more to send when the object is collected
+        if len(sent) != 1:
+            ctx.fail("send_exit_status-message-count", {"status": v}, "%d messages" % len(sent))
+            continue
+        wire = sent[0].asbytes()
+        cases.append((rid, v, wire))
+        reqs.append("exitreq %d %d" % (rid, v))
+        reqs.append("exitparse " + hx(wire[5:]))
+        ctx.case(("exit-wire", rid, v), v >= 0xFF000000 or v in STATUS_BOUNDS)
+        ctx.dist("exit-status:" + ("high" if v >= 0xFF000000 else "mid" if v > 255 else "byte"))
+        # oracle: a receiving channel handed exactly these bytes reports exactly that status
+        rx = Channel(rid & 0xFFFFFF)
+        rx.transport = T()
+        m = Message(wire[1:])
+        if wire[:1] != bytes([MSG_CHANNEL_REQUEST]) or m.get_int() != rid:
+            ctx.fail("exit-status-request-header", {"status": v, "rid": rid}, wire.hex())
+            continue
+        try:
+            rx._handle_request(m)
+        except Exception as e:
+            ctx.fail("exit-status-request-not-understood:" + exc_site(e), {"status": v}, repr(e))
+            continue
+        got = rx.recv_exit_status() if rx.status_event.is_set() else None
+        if got != v:
+            ctx.fail("exit-status-differs", {"status-sent": v, "wire": wire.hex()}, "sent %d (0x%x), reported %r" % (v, v, got))
+    replies = ctx.driver("C21", reqs)
+    if replies is not None:
+        for k, (rid, v, wire) in enumerate(cases):
+            if replies[2 * k] != hx(wire):
+                ctx.disagree("exit-status request bytes", {"rid": rid, "status": v}, replies[2 * k], hx(wire))
+            if replies[2 * k + 1] != str(v):
+                ctx.disagree("exit-status request parse", {"rid": rid, "status": v, "wire": hx(wire)}, replies[2 * k + 1], str(v))
+
+
+def e2e_status_sweep(ctx):
+    """concurrent sessions on one transport pair, one boundary status each: recv_exit_status() == status sent"""
+    import paramiko
+    from tests._loop import LoopSocket
+
+    LIMIT = 150
+
+    class Srv(paramiko.ServerInterface):
+        def get_allowed_auths(self, u):
+            return "none"
+
+        def check_auth_none(self, u):
+            return paramiko.AUTH_SUCCESSFUL
+
+        def check_channel_request(self, kind, chanid):
+            return paramiko.OPEN_SUCCEEDED
+
+        def check_channel_exec_request(self, channel, command):
+            return True
+
+    socks, sockc = LoopSocket(), LoopSocket()
+    sockc.link(socks)
+    tc, ts = paramiko.Transport(sockc), paramiko.Transport(socks)
+    ts.add_server_key(paramiko.RSAKey.from_private_key_file(os.path.join(REPO, "tests", "_support", "rsa.key")))
+    try:
+        ts.start_server(threading.Event(), Srv())
+        tc.start_client(timeout=LIMIT)
+        tc.auth_none("u")
+        tc._channel_counter = 3
+        vals = list(STATUS_BOUNDS)
+        ctx.rng.shuffle(vals)
+        pairs = []
+        for v in vals:
+            c = tc.open_session(timeout=LIMIT)
+            c.exec_command("x")
+            s = ts.accept(LIMIT)
+            if s is None:
+                raise InfraError("C21 status sweep: server did not get the channel")
+            pairs.append((v, c, s))
+        got, errors = {}, []
+
+        def serve(v, s):
+            try:
+                s.send(b"o")
+                s.send_exit_status(v)
+                s.shutdown_write()
+                s.close()
+            except Exception as e:
+                errors.append(("server", v, e))
+
+        def wait(v, c):
+            try:
+                c.settimeout(LIMIT)
+                while c.recv(100):
+                    pass
+                if not c.status_event.wait(LIMIT):
+                    raise InfraError("C21 status sweep: no exit status arrived")
+                got[v] = c.recv_exit_status()
+            except Exception as e:
+                errors.append(("client", v, e))
+
+        ths = [threading.Thread(target=serve, args=(v, s), daemon=True) for v, c, s in pairs]
+        ths += [threading.Thread(target=wait, args=(v, c), daemon=True) for v, c, s in pairs]
+        for th in ths:
+            th.start()
+        for th in ths:
+            th.join(LIMIT)
+            if th.is_alive():
+                raise InfraError("C21 status sweep did not finish")
+        for role, v, e in errors:
+            if isinstance(e, InfraError):
+                raise e
+            ctx.fail("e2e-exception:" + exc_site(e), {"status-sweep": v, "role": role}, repr(e)[:300])
+        for v, c, s in pairs:
+            ctx.case(("e2e-status", v), True)
+            ctx.dist("e2e-status-sweep")
+            if v in got and got[v] != v:
+                ctx.fail("e2e-exit-status-differs", {"status-sent": v, "concurrent-sessions": len(pairs)},
+                         "sent %d (0x%x), recv_exit_status() returned %r" % (v, v, got[v]))
+    finally:
+        tc.close()
+        ts.close()
+
+
 def first_diff(a, b):
     n = next((i for i, (x, y) in enumerate(zip(a, b)) if x != y), min(len(a), len(b)))
     return "got %d bytes, expected %d; first difference at %d (got %s, expected %s)" % (
@@ -664,9 +829,12 @@ def run(ctx):
             if f["exit"] != (str(exits[-1]) if exits else "none"):
                 ctx.fail("exit-status-differs", {"channel": c, "history": [req_of(a) for a in acts]},
                          "reported %s sent %s" % (f["exit"], exits[-1:] or None))
+    # ---- exit status: request bytes against the model, receive side, uint32 boundaries
+    exit_status_wire(ctx)
     # ---- the switch race, all interleavings
     race_runs(ctx)
     # ---- end to end
+    e2e_status_sweep(ctx)
     if ctx.thorough:
         e2e(ctx, 8, 512 * 1024, True, 2, "8x512KiB+zlib+rekey")
         e2e(ctx, 8, 512 * 1024, False, 1, "8x512KiB+rekey", id_offset=3)
@@ -685,7 +853,9 @@ META = {
               "the stderr data buffered at that moment to the stdout stream atomically and from then on the stdout "
               "stream grows by everything arriving on either stream in arrival order while stderr stays empty "
               "(switch_on_moves_buffered_stderr, combined_stream, combined_from_switch); the exit status reported is the "
-              "last one sent (exit_status_is_the_one_sent). Wind-up: local close() keeps the channel registered (late data "
+              "last one sent (exit_status_is_the_one_sent) and the exit-status request (string, boolean, fixed four-byte uint32) "
+              "is read back exactly for every status below 2^32 (exit_status_wire_roundtrip; the bytes send_exit_status "
+              "writes are compared with the model's encoding over the uint32 boundaries). Wind-up: local close() keeps the channel registered (late data "
               "still lands in it and nowhere else); after the peer's CLOSE the id is dead and everything still sent under it "
               "is dropped (dead_channel_drops, late_data_is_dropped); a channel opened under a free or dead id starts empty "
               "and a live id is never reused (reopened_channel_starts_empty, open_live_id_is_noop); a message for a never-"
